@@ -660,6 +660,8 @@ class _AlphaComps(ast.NodeTransformer):
         self.depth = 0
 
     def _comp(self, node):
+        # the first iterable is evaluated in the enclosing scope: normalise it at the current depth
+        first_iter = self.visit(node.generators[0].iter)
         self.depth += 1
         mapping = {}
         for gi, g in enumerate(node.generators):
@@ -675,10 +677,10 @@ class _AlphaComps(ast.NodeTransformer):
                 if n.id in mapping:
                     return ast.copy_location(ast.Name(id=mapping[n.id], ctx=n.ctx), n)
                 return n
-        first_iter = node.generators[0].iter
+        node.generators[0].iter = ast.Constant(value=None)
         node = R().visit(node)
-        node.generators[0].iter = first_iter      # evaluated in the enclosing scope
         self.generic_visit(node)
+        node.generators[0].iter = first_iter
         self.depth -= 1
         return node
 
